@@ -317,7 +317,7 @@ var c17MessageWords = func() map[string]bool {
 func init() {
 	fw.Register(&fw.Check{
 		ID:   "C17",
-		Rule: "a case is a batch of featgram grammars (lexer: literals, (class) rules with keyword specialisations, (space) rules, named patterns, %s/%x start conditions, typed tokens and rule code, priorities; parser: several inputs incl. no-eoi, lists with and without separators, optionals, nested choices, arrows/fields/%interface categories/node flags, typed nonterminals and semantic actions, mid-rule actions, precedence and %prec, error recovery, (?= A & !B) lookaheads, template flags and rule predicates, named sets, %inject, lalr(2), custom %% templates) each under an option vector from a pairwise covering array over the 25 options of DESIGN C17 (columns permuted/complemented per seed and pass); a grammar is non-trivial when the compiler accepted it and gen.Generate wrote files that reached `go build`; distinct = distinct (option vector, feature set, generated text hash)",
+		Rule: "a case is a batch of featgram grammars (lexer: literals, (class) rules with keyword specialisations, (space) rules, named patterns, %s/%x start conditions, typed tokens and rule code, priorities; parser: several inputs incl. no-eoi, lists with and without separators, optionals, nested choices, arrows/fields/%interface categories/node flags, typed nonterminals and semantic actions, mid-rule actions, precedence and %prec, error recovery, (?= A & !B) lookaheads, template flags and rule predicates, named sets, %inject, lalr(2), custom %% templates) each under an option vector from a pairwise covering array over the 25 options of DESIGN C17 (columns permuted/complemented per seed and pass); every case additionally gets two keyword-list grammars tuned (by compiling candidates) to exactly 128 and one of 127/129/255/256/257/128 LR states, with tokenStream forced on resp. alternating; a grammar is non-trivial when the compiler accepted it and gen.Generate wrote files that reached `go build`; distinct = distinct (option vector, feature set, generated text hash)",
 		Assumptions: []string{
 			"the Go toolchain (go build -gcflags=-e) is the oracle for 'forms Go packages that build'",
 			"user code inside the grammars (semantic actions, lexer code, %% templates) is valid Go wherever the documented generated context provides what it references; customImpl, flexMode, non-Go targets are excluded (need hand-written code / other compilers)",
@@ -334,7 +334,7 @@ func init() {
 			}
 			return 75
 		},
-		RequiredCounters: []string{"packages_built_ok", "packages_with_parser", "packages_lexer_only", "option_pairs_covered",
+		RequiredCounters: []string{"packages_built_ok", "boundary_size_packages_128_states_tokenstream", "boundary_size_packages_256_states", "packages_with_parser", "packages_lexer_only", "option_pairs_covered",
 			"feat:lookahead", "feat:precedence", "feat:error-recovery", "feat:template-flag", "feat:named-set", "feat:lexer-exclusive-state",
 			"feat:lexer-without-space-rules", "feat:mid-rule-action", "feat:typed-nonterminal-action", "feat:input-no-eoi", "feat:interface-categories", "feat:field-assign"},
 		CPUBudget: 1200,
@@ -516,6 +516,7 @@ func c17Run(c *fw.Ctx) {
 			pkgs = append(pkgs, p)
 		}
 	}
+	pkgs = append(pkgs, c17BoundaryPackages(c)...)
 	stage(&st, "c17 generate")
 	c17BuildAndJudge(c, pkgs, true)
 }
